@@ -172,7 +172,7 @@ def gen_C19(rng, tier):
     primes32 = [4294967291, 4294967279, 4294967231, 4294967197, 65521, 65537, 2147483647, 3037000493]
     for p in primes32:
         for k in (1, 2):
-            if p ** k < (2 ** 64 if big else 2 ** 63):
+            if p ** k < 2 ** 63 or (big and p == 4294967291):
                 L.append("aux fpp %d" % p ** k)
                 L.append("aux fact %d" % p ** k)
         L.append("aux fact %d" % (p * 3))
@@ -194,8 +194,8 @@ def gen_C19(rng, tier):
                 L.append("aux fpp %d" % (p ** k * 2))
             k += 1
     # a few expensive 64-bit primes / semiprimes
-    heavy = [2 ** 61 - 1, 3037000493 * 3037000453, 18446744073709551557, 4294967291 * 4294967279, 2 ** 64 - 1]
-    for q in heavy[: (5 if big else 2)]:
+    heavy = [2 ** 61 - 1, 3037000493 * 3037000453, 18446744073709551557, 2 ** 64 - 1]
+    for q in heavy[: (4 if big else 2)]:
         L.append("aux fpp %d" % q)
         L.append("aux fact %d" % q)
     for _ in range(400 if big else 100):
